@@ -378,7 +378,7 @@ pub fn property(tier: Tier) -> Property {
                 )
             },
             rule: "a left pattern (depth <= 3, repeated variables, free slots, every binder binds a new name), a right pattern over its variables and free slots, a substitution of small terms (new names and bound names in scope) and an injective renaming of the pattern's free slots give the planted instance; it is inserted inside a context, in half of the cases with a subterm replaced by a term of the same free names that is united with it afterwards, optionally next to a symmetric leaf and a second rule; cases in which some class has a redundant slot are counted out of scope; non-trivial = repeated variable, binder, or pre-union; distinct by rendered case",
-            case_timeout_s: tier.pick(120, 600),
+            case_timeout_s: tier.pick(30, 120),
             exhaustive: false,
         }));
     }
